@@ -402,6 +402,21 @@ func TestGenerated(t *testing.T) {
 		}
 	}()
 	rt.Check(t, 20000, 5000000, func(t *rapid.T) {
+		// the escaped word is a function of the string alone: not of the caller's login shell, locale or home
+		if rapid.IntRange(0, 3).Draw(t, "changeEnvironment") == 0 {
+			k := rapid.SampledFrom([]string{"SHELL", "SHELL", "LANG", "LC_ALL", "HOME", "IFS", "TERM"}).Draw(t, "envName")
+			v := rapid.SampledFrom([]string{"/usr/bin/fish", "/bin/zsh", "/bin/csh", "/bin/sh", "", "C:\\Windows\\cmd.exe", "tr_TR.UTF-8", "C", "/nonexistent", "xterm"}).Draw(t, "envValue")
+			old, had := os.LookupEnv(k)
+			os.Setenv(k, v)
+			defer func() {
+				if had {
+					os.Setenv(k, old)
+				} else {
+					os.Unsetenv(k)
+				}
+			}()
+			ev.Label("env:" + k + "_changed")
+		}
 		s := genString().Draw(t, "s")
 		for _, fn := range fns {
 			if msg := modelCheck(fn, s); msg != "" {
